@@ -10,9 +10,11 @@ import (
 	"fmt"
 	"io"
 	"os"
+	"path/filepath"
 	"sort"
 	"strings"
 	"sync"
+	"sync/atomic"
 	"time"
 
 	"github.com/uber-go/tally"
@@ -280,6 +282,16 @@ type violation struct {
 // inside `op` (applied to acknowledged state pre; post = acknowledged state had
 // op completed; targets = keys op may legitimately have changed).
 func checkRecovered(c cfg, dir string, pre, post model, op string, evictable map[string]bool) (string, string) {
+	pristine := ""
+	if c.reboot {
+		// keep a copy of the crash image: the life-after-recovery continuations
+		// (one per restored incomplete blob) each start from the image itself
+		pristine = filepath.Join(filepath.Dir(dir), "image")
+		os.RemoveAll(pristine)
+		if err := copyTree(dir, pristine); err != nil {
+			pristine = "" // image has no store directory yet (crash before it was made): nothing can be restored from it
+		}
+	}
 	s, err := newStore(dir, c)
 	if err != nil {
 		return "reopen fails after crash in " + opKind(op), fmt.Sprintf("NewStore: %v", err)
@@ -362,6 +374,20 @@ func checkRecovered(c cfg, dir string, pre, post model, op string, evictable map
 	if size != sum || size > capa {
 		return "accounting inconsistent after reopen (crash in " + opKind(op) + ")", fmt.Sprintf("size=%d sum(listed)=%d capacity=%d", size, sum, capa)
 	}
+	// life after recovery: every restored incomplete blob is completed after the
+	// restart, put under eviction pressure and taken through one more restart
+	if c.reboot {
+		for _, k := range keys {
+			if got[k].listed && !got[k].complete && !(k == target && f[0] == "delete") {
+				if pristine == "" {
+					panic("harness: blob restored from an image without store directory")
+				}
+				if fp, msg := continueLife(c, pristine, filepath.Join(filepath.Dir(dir), "life-"+k), k, pre, post, op); fp != "" {
+					return fp, msg
+				}
+			}
+		}
+	}
 	// clause: every key can be created and completed again afterwards
 	for _, k := range keys {
 		if got[k].listed {
@@ -391,6 +417,148 @@ func checkRecovered(c cfg, dir string, pre, post model, op string, evictable map
 		}
 	}
 	return "", ""
+}
+
+var contCases, contBanned, contEvicting, contFull int64
+
+// banWanted returns the eviction-ban values the acknowledged history allows for
+// key k after a crash inside op: the acknowledged one, or for the key the
+// in-flight operation works on the old or the new one.
+func banWanted(k string, pre, post model, op string) map[bool]bool {
+	f := strings.Fields(op)
+	w := map[bool]bool{}
+	if pre[k].present {
+		w[pre[k].banned] = true
+	}
+	if k == f[1] {
+		if post[k].present {
+			w[post[k].banned] = true
+		}
+		if f[0] == "delete" { // half-removed blob directory: the flag file may already be gone
+			w[true], w[false] = true, true
+		}
+	}
+	return w
+}
+
+// continueLife starts from the crash image (copied to dir), reopens the store,
+// completes the restored incomplete blob k ("every key can be ... completed
+// again"), then creates every absent key in key order (eviction pressure: the
+// store holds 2 blobs) and restarts once more. Clauses: the blob completes with
+// its acknowledged bytes and eviction ban; a blob whose ban was acknowledged is
+// never evicted; the further restart restores the same ban.
+func continueLife(c cfg, image, dir, k string, pre, post model, op string) (string, string) {
+	os.RemoveAll(dir)
+	if err := copyTree(image, dir); err != nil {
+		panic(fmt.Sprintf("harness: copy crash image: %v", err))
+	}
+	defer os.RemoveAll(dir)
+	at := " (restored incomplete blob, crash in " + opKind(op) + ")"
+	s, err := newStore(dir, c)
+	if err != nil {
+		return "reopen fails after crash in " + opKind(op), fmt.Sprintf("NewStore on a copy of the crash image: %v", err)
+	}
+	atomic.AddInt64(&contCases, 1)
+	want := banWanted(k, pre, post, op)
+	if b, ok := s.VerifBanned(k); !ok || !want[b] {
+		return "eviction ban of restored incomplete blob not restored" + at, fmt.Sprintf("key %s banned=%v (known=%v) allowed %v", k, b, ok, want)
+	}
+	if err := s.MarkComplete(k); err != nil {
+		return "restored incomplete blob cannot be completed after reopen" + at, fmt.Sprintf("MarkComplete(%s): %v", k, err)
+	}
+	got, err := observe(s)
+	if err != nil {
+		return "listed blob unreadable after completing a restored blob" + at, err.Error()
+	}
+	if !got[k].listed || !got[k].complete {
+		return "restored incomplete blob not complete after MarkComplete" + at, fmt.Sprintf("key %s listed=%v complete=%v", k, got[k].listed, got[k].complete)
+	}
+	if pre[k].written && got[k].bytes != string(content(k)) {
+		return "restored incomplete blob completed with wrong bytes" + at, fmt.Sprintf("key %s bytes %q", k, got[k].bytes)
+	}
+	if !want[got[k].banned] {
+		return "eviction ban lost by completing a restored incomplete blob" + at, fmt.Sprintf("key %s banned=%v allowed %v", k, got[k].banned, want)
+	}
+	// keys whose ban is decided by the acknowledged history and is ON
+	mustStay := map[string]bool{}
+	for _, y := range keys {
+		w := banWanted(y, pre, post, op)
+		if got[y].listed && w[true] && !w[false] {
+			mustStay[y] = true
+		}
+	}
+	if mustStay[k] {
+		atomic.AddInt64(&contBanned, 1)
+	}
+	for _, x := range keys {
+		if got[x].listed {
+			continue
+		}
+		before := len(s.List())
+		h, err := s.Create(x, 2)
+		if err != nil {
+			if !strings.Contains(err.Error(), "cannot free enough space") {
+				return "key cannot be created after completing a restored blob" + at, fmt.Sprintf("Create(%s): %v", x, err)
+			}
+			atomic.AddInt64(&contFull, 1)
+		} else {
+			h.Close()
+			if len(s.List()) <= before {
+				atomic.AddInt64(&contEvicting, 1)
+			}
+		}
+		listed := map[string]bool{}
+		for _, y := range s.List() {
+			listed[y] = true
+		}
+		for y := range mustStay {
+			if !listed[y] {
+				return "blob banned from eviction was evicted" + at, fmt.Sprintf("key %s (ban acknowledged before the crash) vanished during Create(%s) after the restart; completed key %s", y, x, k)
+			}
+		}
+	}
+	// one more (clean) restart: the completed blob keeps the ban it had
+	s2, err := newStore(dir, c)
+	if err != nil {
+		return "reopen fails after completing a restored blob" + at, fmt.Sprintf("NewStore: %v", err)
+	}
+	got2, err := observe(s2)
+	if err != nil {
+		return "listed blob unreadable after completing a restored blob" + at, err.Error()
+	}
+	if g := got2[k]; g.listed {
+		if !g.complete {
+			return "completed blob reported incomplete after restart" + at, fmt.Sprintf("key %s", k)
+		}
+		if !want[g.banned] || g.banned != got[k].banned {
+			return "eviction ban of completed restored blob changes over a restart" + at, fmt.Sprintf("key %s banned=%v before restart %v allowed %v", k, g.banned, got[k].banned, want)
+		}
+	} else if mustStay[k] {
+		return "completed blob lost after restart" + at, fmt.Sprintf("key %s", k)
+	}
+	return "", ""
+}
+
+// copyTree copies a directory tree (regular files and directories) with the real os package.
+func copyTree(src, dst string) error {
+	return filepath.Walk(src, func(p string, info os.FileInfo, err error) error {
+		if err != nil {
+			return err
+		}
+		rel, _ := filepath.Rel(src, p)
+		t := filepath.Join(dst, rel)
+		if info.IsDir() {
+			return os.MkdirAll(t, 0o755)
+		}
+		b, err := os.ReadFile(p)
+		if err != nil {
+			return err
+		}
+		if err := os.WriteFile(t, b, info.Mode().Perm()); err != nil {
+			return err
+		}
+		return os.Chtimes(t, info.ModTime(), info.ModTime())
+	})
 }
 
 func opKind(op string) string {
@@ -531,9 +699,10 @@ func expand(c cfg, n node, double bool) result {
 
 func main() {
 	run := evid.New("C06", "fault_enumeration")
-	run.Rule = "BFS over operation histories of the real disk.Store (2 keys sharing a shard + 1 pressure key, capacity 4, blob size 2; dedup on acknowledged-state key); for every reachable state and every enabled next operation, a crash before EACH mutating FS primitive of that operation (numbered by the os shim compiled into lib/store/disk), then disk.NewStore on the directory and the statement's clauses. distinct = distinct (config, state, op, crash point) cases."
+	run.Rule = "BFS over operation histories of the real disk.Store (2 keys sharing a shard + 1 pressure key, capacity 4, blob size 2; dedup on acknowledged-state key); for every reachable state and every enabled next operation, a crash before EACH mutating FS primitive of that operation (numbered by the os shim compiled into lib/store/disk), then disk.NewStore on the directory and the statement's clauses; then, for EVERY crash image and EVERY incomplete blob it restores (reboot of incomplete blobs on), a life-after-recovery continuation from a copy of the image: reopen, in-memory eviction ban == acknowledged ban (old or new value for the key of the in-flight op), MarkComplete of the restored blob (bytes, ban kept), Create of every absent key in key order (eviction pressure: capacity = 2 blobs; a blob whose ban was acknowledged must never vanish), one more restart (same ban). distinct = distinct (config, state, op, crash point) cases."
 	run.Assume("process-crash model: completed syscalls persist, nothing after the crash point happens, no torn writes")
 	run.Assume("os shim (verif/shim/vos) performs the same primitives as package os; RemoveAll order = ascending and descending name order")
+	run.Assume("small-scope: one continuation shape per (crash image, restored incomplete blob): complete it, then create the absent keys in key order, then restart; other post-restart histories are not explored")
 	run.Assume("LRU order after reboot is not constrained (mtime based, not part of the statement)")
 
 	depth := 6
@@ -620,6 +789,11 @@ func main() {
 		run.Set("config:"+c.String(), map[string]interface{}{"states": states})
 	}
 	run.Set("states", totalStates)
+	run.Eval(int(atomic.LoadInt64(&contCases)))
+	run.Set("life_after_recovery_continuations", atomic.LoadInt64(&contCases))
+	run.Set("continuations_with_acknowledged_ban_on_the_completed_blob", atomic.LoadInt64(&contBanned))
+	run.Set("continuation_creates_that_evicted", atomic.LoadInt64(&contEvicting))
+	run.Set("continuation_creates_refused_for_space", atomic.LoadInt64(&contFull))
 	cp, _ := run.Extra["crash_points"].(int64)
 	for i := int64(0); i < cp && i < 100000; i++ {
 		run.Distinct(fmt.Sprintf("cp%d", i))
